@@ -74,6 +74,16 @@ SUMMARY = {
  'C16-agent7': 'rate limiter may return short reads + S3 payload hashing stops at the first short read: x-amz-content-sha256 covers a prefix of the body',
  'C17-agent7': 'repository config served from the per-user cache directory (same idea as C05-agent6, found independently)',
  'C20-agent7': 'one RateLimitedIO kept per Repository; set_limit() leaves write_limit at the first command\'s value: a later restore under a lower limit runs at the old one',
+ 'C02-agent8': 'S3 listing stops at the first page without a continuation token: a page answered 200 with an error body silently ends the listing (clean then deletes referenced chunks)',
+ 'C03-agent8': 'Local: PermissionError from the final rename is taken for a Windows race and swallowed: the upload reports success without an object',
+ 'C05-agent8': 'key output refactored; when the -o file exists the key is printed instead - with its private section still unencrypted',
+ 'C07-agent8': 'S3 listing: IsTruncated re-read per page with default false (same effect as C02-agent8, found independently)',
+ 'C08-agent8': 'chunk deletions bounded by a window whose last batch is awaited with a bare asyncio.wait: failed deletes are dropped, delete/clean report success',
+ 'C09-agent8': 'snapshot cancels its other workers when one fails: slots come back while executor calls are still running',
+ 'C12-agent8': 'backoff decorators get max_time=60 (wall clock incl. attempt time): on a slow link the second failure already ends the retries',
+ 'C13-agent8': 'Local path run through os.path.normpath: <symlink>/../<dir> addresses another directory than the OS resolves',
+ 'C14-agent8': 'restore_metadata picks the metadata variant with all(ns): a time-stamp of exactly 0 is taken for the legacy variant, KeyError',
+ 'C18-agent8': 'cache entries older than 10 minutes are trusted without re-hashing: an old torn entry breaks every command',
  'C20-agent1': 'transfer block size floor of 16000 bytes: below 32 kB/s each block owes more than the capped debt',
 }
 rows = []
